@@ -29,7 +29,7 @@ fn meta(ctx: &Ctx) -> Meta {
     Meta {
         level: "exploration",
         rule: format!(
-            "bounded-exhaustive: every string of up to {} tokens over {:?} (release; one token fewer in the verifdbg pass) plus seeded random longer strings (tabs, newlines, mixed case, all 41 names, non-ASCII look-alikes) is given to FileCaps::from_str and FileOptions::caps and judged against an independent grammar acceptor; accepted text must be kept verbatim. distinct_nontrivial = distinct texts on which the grammar gives a definite verdict (accept/reject), don't-care texts (empty, trailing operator, non-ASCII whitespace) are only judged for no-panic",
+            "bounded-exhaustive: every string of up to {} tokens over {:?} (release; one token fewer in the verifdbg pass) plus seeded random longer strings (tabs, newlines, mixed case, all 41 names, non-ASCII look-alikes) is given to FileCaps::from_str and FileOptions::caps and judged against an independent grammar acceptor; accepted text must be kept verbatim. A second complete enumeration covers an alphabet with upper-case flag letters, an upper-case ALL, tab and vertical tab; a deterministic table runs each of the 41 names in three spellings with several suffixes and separators and every one-character near miss of every name. distinct_nontrivial = distinct texts on which the grammar gives a definite verdict (accept/reject), don't-care texts (empty, trailing operator, non-ASCII whitespace) are only judged for no-panic",
             max_tokens(ctx),
             TOKENS
         ),
@@ -71,7 +71,7 @@ fn nth_string(mut idx: u64, len: u32) -> String {
 }
 
 fn random_text(r: &mut Rng) -> String {
-    const EXTRA: [&str; 19] = ["\x0b", "\x0c", "\r\n", "\t", "\n", "  ", "ALL", "All", "cap_\u{17f}etuid", "cap_k\u{131}ll", "é", "cap_chown,cap_syslog", "=eip", "+ep", "-i", "==", "+-", "\u{a0}", "Cap_Net_Admin"];
+    const EXTRA: [&str; 25] = ["=EIP", "+Ep", "=E", "-I", "=eIp", "E", "\x0b", "\x0c", "\r\n", "\t", "\n", "  ", "ALL", "All", "cap_\u{17f}etuid", "cap_k\u{131}ll", "é", "cap_chown,cap_syslog", "=eip", "+ep", "-i", "==", "+-", "\u{a0}", "Cap_Net_Admin"];
     let mut s = String::new();
     let n = 1 + r.usize(14);
     for _ in 0..n {
@@ -127,6 +127,34 @@ fn run(ctx: &Ctx, rep: &Report) {
         rep.eval(total);
         rep.count(&format!("enumerated.len{len}"), total);
     }
+    // a second complete enumeration over an alphabet with what the first one lacks: upper-case flag
+    // letters, an upper-case "ALL", tab and vertical tab as separators
+    {
+        const TOKENS_B: [&str; 12] = ["cap_chown", "ALL", ",", "=", "+", "-", "e", "E", "I", "P", "\t", "\x0b"];
+        let maxb = if ctx.is_dbg() { 3 } else { ctx.tier.pick(4, 6) };
+        for len in 1..=maxb {
+            let total = 12u64.pow(len);
+            let chunk = 4096u64;
+            par_for(ctx.threads, total.div_ceil(chunk), 1, |c| {
+                let mut local = BTreeMap::new();
+                let mut hs = Vec::new();
+                for mut idx in c * chunk..((c + 1) * chunk).min(total) {
+                    let mut s = String::new();
+                    for _ in 0..len {
+                        s.push_str(TOKENS_B[(idx % 12) as usize]);
+                        idx /= 12;
+                    }
+                    observe(rep, &mut local, &mut hs, &s);
+                }
+                rep.counts(&local);
+                if len <= 3 {
+                    rep.nontrivial_many(hs);
+                }
+            });
+            rep.eval(total);
+            rep.count(&format!("enumerated_alphabet_b.len{len}"), total);
+        }
+    }
     rep.set_exhaustive(true);
     let nrand: u64 = if ctx.is_dbg() { ctx.tier.pick(30_000, 300_000) } else { ctx.tier.pick(100_000, 20_000_000) };
     let chunk = 2000u64;
@@ -157,7 +185,7 @@ fn run(ctx: &Ctx, rep: &Report) {
             let other = names[(k + 7) % names.len()];
             let mixed: String = n.chars().enumerate().map(|(i, c)| if i % 2 == 0 { c.to_ascii_uppercase() } else { c }).collect();
             for sp in [n.to_string(), n.to_uppercase(), mixed] {
-                for suf in ["=e", "+ep", "=eip", "-i", "=", ""] {
+                for suf in ["=e", "+ep", "=eip", "-i", "=", "", "=E", "+eP", "=EIP"] {
                     texts.push(format!("{sp}{suf}"));
                     texts.push(format!("{other},{sp}{suf}"));
                     texts.push(format!("{sp},{other}{suf}"));
